@@ -4,7 +4,7 @@ that claimed checks, not_applicable and texts stay consistent)."""
 import json, sys
 
 NOTE = ("Trusted base: x/tools v0.29.0 go/ssa builder; the symbolic fork of go/ssa/interp in /verif/engine/symex; "
-        "z3 4.8.12 / cvc5 1.0; the environment stubs of DESIGN.md section 2.5 (fmt/strconv formatting, sync, reflect emulation, time, os.Getenv, "
+        "z3 5.1.0 (z3-new) / cvc5 1.0; the environment stubs of DESIGN.md section I.5 (fmt/strconv formatting, sync, reflect emulation, time, os.Getenv, "
         "math.Pow as an uninterpreted function). Every run re-loads /repo's working tree, rebuilds the SSA and regenerates all queries; "
         "a sample of path models and every counterexample is replayed against the native build (go test -overlay), and a counterexample that does not "
         "reproduce is reported as an internal error (exit 3), never as a violation. Bounds are listed in evidence coverage.bounds and in DESIGN.md section 4; "
@@ -55,6 +55,28 @@ CLAIMED = {
          "Every predicted race is replayed with real goroutines under go test -race. Also: each object gets the sequential verdict and a per-run counter loses no update in every explored order. Eight scripts using fields, variables, regexps, built-ins, foreach, a user function, hash literals with string keys and a nested host map.", "4 C11"),
 }
 
+# harness families added after the first version of each text (DESIGN.md I.4, "Later additions")
+EXTRA = {
+ "C01": "operators with literal and object-field operands incl. && and || (what compile-time rewriting sees), the index operator on multi-byte strings of three origins, prefix operators over literals and constant sub-expressions, printed forms of floats up to 1e300 and of whole numbers beyond 2^63",
+ "C02": "`for` loops, non-string switch subjects against literal/expression/regexp arms, conditionals in tail position after foldable constants, statements before a loop whose body calls a looping function",
+ "C03": "one operator between a literal and a variable/field/literal of every type (18 operators), 30 prefix-operator forms over constants, jumps landing on jumps after bytes the optimizer removes",
+ "C04": "the same pointer or map updated in place between runs, runs after a run that failed (six ways, four shape pairs), maps of different key sets one after the other",
+ "C05": "values written as literals in the script and results of && / || over literals as further origins",
+ "C06": "names used before their `local` declaration, zero-parameter functions with `local` inside nested blocks (scenarios 18-24)",
+ "C07": "a recursion 1100/3000 deep that ends normally or in a fault, histories of 1000/4000 failing runs, histories over objects of other shapes (maps with other keys, other struct types, pointers)",
+ "C08": "run-time faults spelled with symbolic literals (folding at preparation), 12 orders of Prepare/Execute/Run/Dump incl. before Prepare and after a rejected one",
+ "C09": "terminating scripts under a context that is already done; goroutines started by the code under test are modelled as not yet scheduled",
+ "C10": "adversarial TZ values; a script that assigns a variable whose name is symbolic (the solver finds any spelling the machine consults)",
+ "C11": "scripts that assign nothing (loops, calls), sync.Pool of the code under test modelled with Put-to-Get hand-over edges",
+ "C12": "operands that are literal containers or strings indexed in place and chains of index/call/field selections",
+ "C13": "a symbolic illegal character in three placements, contexts in which a later part overrides or hides the part with the hole",
+ "C15": "values handed out by foreach (kept directly, through a function, as previous value, in an array), values computed inside array literals or call arguments and then mutated",
+ "C17": "replace/match with symbolic input and replacement against the host regexp library, float() and more argument types for the conversions, concrete instants and zones with sub-minute offsets",
+ "C18": "35 statement kinds as the last statement of a function body in four places of definition, hash literals with repeated or coinciding keys",
+ "C19": "programs large enough for whole-script budgets (2-3 functions with 300/700-term constant chains), two equal but separately allocated host objects with pointer-rich fields",
+ "C20": "AddFunction / SetVariable again between runs, the driver with a time-out that has already expired",
+}
+
 TECH = "bounded symbolic execution of the repository's go/ssa (own SSA interpreter fork) with SMT (z3/cvc5) deciding each path assertion; native replay of models"
 
 def main():
@@ -66,6 +88,8 @@ def main():
         pid = p["id"]
         if pid in CLAIMED:
             text, ref = CLAIMED[pid]
+            if pid in EXTRA:
+                text += " Harness families added later: " + EXTRA[pid] + "."
             checks.append({
                 "property_id": pid,
                 "quick_cmd": "./check %s quick" % pid,
@@ -90,7 +114,7 @@ def main():
             "add_only": True,
         },
         "engines": [{"name": "vcheck", "path": "/verif/engine", "serves_properties": sorted(CLAIMED),
-                     "kind_free_text": "bounded symbolic execution of the repository's go/ssa (fork of x/tools go/ssa/interp with symbolic scalars, strings and nondeterministic stubs) + SMT (z3 4.8.12, cvc5 1.0), native replay via go test -overlay"}],
+                     "kind_free_text": "bounded symbolic execution of the repository's go/ssa (fork of x/tools go/ssa/interp with symbolic scalars, strings and nondeterministic stubs) + SMT (z3 5.1.0 as z3-new, z3 4.8.12 for cross-checks, cvc5 1.0 for floating point), native replay via go test -overlay"}],
         "checks": checks,
         "not_applicable": na,
         "notes": "see DESIGN.md; known_findings.json lists recorded findings and fixed defects",
